@@ -21,7 +21,7 @@ func init() {
 		Rule: "training-history monitor: models FC(D->O) -> {none, Relu, LeakyRelu(m), Sigmoid, Tanh, Softmax(1)} -> {MSE, BCE, CE} (rank-1 losses fed through Flatten(0); BCE/CE only behind Sigmoid/Softmax), D,O in 1..5, batch 1..6, learning rates {default, 1e-3, 0.05, 0.5, 0, -0.05}, random non-uniform initial W,B and data (fresh or reused batches), a 'dead Relu' variant whose gradients are exactly zero; ONE layer / activation / loss / optimizer object per history; 2..12 steps of Forward / Compute / BackPropagate / Update on every Weights() pointer / ResetGradContext(true); optional extra forward passes between steps. " +
 			"Per step (no drift: the oracle starts from the weights observed before the step): loss value = reference loss; weights after the step = w - lr*dLoss/dw from the reference tape; shapes constant; after the reset every weight has a nil gradient, is tracked and not spent. Variant: the reset is omitted on one weight at a random step - the next Update of that weight must return an error and leave the pointer untouched. " +
 			"A step whose weights equal the tape run with BroadcastRule=Avg instead (and the model has batch > 1 or a Softmax wider than 1) is attributed to the recorded finding; models with batch 1 and no wide Softmax have no expansion and are decided exactly. " +
-			"Non-trivial: >= 2 steps completed; distinct = (D, O, batch, activation, loss, lr, variant, steps).",
+			"Non-trivial: >= 2 steps completed; distinct = (D, O, batch, activation, loss, lr, variant, steps). Later additions: variants vary-batch (batch size changes between steps) and exact-fit (dyadic data, residuals exactly 0); Weights() pointers held from before the first step in half of the histories; data and label tensors tracked at random; every config struct overwritten right after construction; every third loss object is the zero value of its struct.",
 		Assumptions: []string{"weight comparison: |r-e| <= 1e-10*(1+max|e|) + 1e-9*max(|r|,|e|); loss within the C12 tolerance"},
 		FloorQuick:  4000, FloorThor: 100000,
 		Run: runC11,
